@@ -74,7 +74,7 @@ def hw_grouping(u, rep, dtype, rank, axis, k, length, timeout):
         model = u.mod.HammingWeight(nb_words=k, expected_dtype=dtype); u.pending = []
         return data, model(data, axis=axis if axis != rank - 1 else -1)
     oname = 'post[HammingWeight,%s,rank%d,axis%d,k%d,len%d]' % (dtype, rank, axis, k, length)
-    case = dict(kind='hw_group', dtype=dtype, rank=rank, axis=axis, k=k, length=length)
+    case = dict(kind='hw_group', dtype=dtype, rank=rank, axis=axis, k=k, length=length, heavy=(k * bits >= 256))
     for p, outc, exc in core.explore(body):
         if length < k:
             ok = isinstance(exc, ValueError)
@@ -299,6 +299,8 @@ def main():
                     for ln in lens:
                         if a.tier == 'quick' and dt not in ('uint8', 'uint32') and (rank, ln) not in ((2, 4), (3, 5)): continue
                         units.append(('grp', dt, rank, axis, k, ln))
+    # large groups: 32 bytes can weigh 256 -- the group sum must not be accumulated in the width of one word's weight (seeded c15_e)
+    units += [('grp', 'uint8', 1, 0, 32, 32), ('grp', 'uint8', 2, 1, 32, 64), ('grp', 'uint16', 1, 0, 16, 16)]
     for dt, rank, axis, k in (('uint8', 1, 0, 2), ('uint8', 2, 0, 2), ('uint8', 2, 1, 2), ('uint8', 3, 1, 2), ('uint8', 3, 2, 2)) + ((('uint16', 3, 1, 2), ('uint8', 1, 0, 4), ('uint8', 2, 1, 3), ('uint32', 2, 1, 2), ('uint64', 3, 2, 2), ('uint8', 3, 0, 5), ('uint16', 2, 0, 3)) if a.tier != 'quick' else ()):      # quick: uint8, k = 2 (z3 decides at once); wider words / larger k need cvc5 (tens of seconds each)
         units.append(('grpinv', dt, rank, axis, k))
     for dt in ('uint8', 'int8', 'uint16', 'int16', 'uint32', 'int32', 'uint64', 'int64'):
